@@ -32,18 +32,21 @@ NUM = /[0-9]+/;
 # several token definitions that are rejected only when the lexer automaton is built: one diagnostic each, in the order of
 # the definitions - whatever order the conversions finish in
 BADPATS = '''grammar g;
-start = AA BBB CC DDDD EE FF;
+start = AA BBB CC DDDD EE FF GG;
 AA = /[a-z]{3,1}/;
 BBB = /[z-a]+/;
 CC = /[0-9]+/;
 DDDD = /x{5,2}y/;
 EE = /[9-0]/;
 FF = /(a|b){2,1}/;
+GG = /[z-a][9-0]a{3,1}x{8,7}/;
 '''
 
 
 def bad_patterns(rng):
-    bad = ["/[a-z]{3,1}/", "/[z-a]+/", "/x{5,2}y/", "/[9-0]/", "/(a|b){2,1}/", "/[b-a][d-c]/", "/a{9,8}/"]
+    bad = ["/[a-z]{3,1}/", "/[z-a]+/", "/x{5,2}y/", "/[9-0]/", "/(a|b){2,1}/", "/[b-a][d-c]/", "/a{9,8}/",
+           # several different problems in one pattern: one diagnostic line each, in the order they occur in the pattern
+           "/[9-0]+(x{4,2})?/", "/[z-a][9-0]a{3,1}/", "/(a{2,1}|[d-c]|[f-e]{7,6})/", "/[b-a][d-c][f-e][h-g]/"]
     good = ["/[0-9]+/", "/[a-z]+/", "/if|else/", "/==?/"]
     names = ["AA", "BBB", "CC", "DDDD", "EE", "FF", "GG", "HH"]
     k = rng.choice([3, 4, 5, 6])
